@@ -73,6 +73,16 @@ struct StepOut {
     void fail(const char *prop, const std::string &msg) { o << "!O " << prop << " " << msg << "\n"; }
 };
 
+// measured oracle coverage: one line per event appended to the file named by $TH_STATS (read by lib/checks_tethex.py)
+inline void stat_event(const char *what) {
+    const char *p = getenv("TH_STATS");
+    if (!p) return;
+    FILE *f = fopen(p, "a");
+    if (!f) return;
+    fprintf(f, "%s\n", what);
+    fclose(f);
+}
+
 inline void header(std::ostream &o, int lineno, const std::string &echo, const char *outcome) {
     o << "== " << lineno << " " << echo << " -> " << outcome << "\n";
 }
